@@ -17,9 +17,10 @@ git apply $SD/patch.diff || { echo "PATCH DOES NOT APPLY in worktree"; exit 3; }
 echo "== demo WITH patch"; go test -vet=off -count=1 -run "^($TESTS)\$" ./$DIR 2>&1 | grep -v "sqlite3\|warning\|\^\|Select standin\|return pNew\|declared here" | tail -4
 echo "== build+suite WITH patch"; go build ./... 2>&1 | grep -v "sqlite3\|warning\|\^\|Select standin\|return pNew\|declared here" | tail -2; rm $DIR/zz_seed_demo_test.go; go test -vet=off -count=1 ./... 2>&1 | grep "^ok\|FAIL" | tr '\n' ' '; echo
 git checkout -q -- . && git clean -fdq
+# checks run against the scratch worktree with the patch applied (VERIF_REPO), never against /repo itself
+git apply $SD/patch.diff || { echo "PATCH DOES NOT APPLY in worktree"; exit 3; }
+trap 'git -C '"$WT"' checkout -q -- . 2>/dev/null' EXIT
 cd /verif
-trap 'git -C /repo checkout -- . 2>/dev/null' EXIT
-git -C /repo apply $SD/patch.diff || { echo "PATCH DOES NOT APPLY to /repo"; exit 3; }
-for P in "$@"; do echo "== check $P on patched /repo"; ./check $P quick > /tmp/seedeval_check.out 2>&1; echo "exit=$?"; grep -E "^(VIOLATION|OK)" /tmp/seedeval_check.out | cut -c1-300 | head -6; grep -E "^INCONCLUSIVE" /tmp/seedeval_check.out | cut -c1-200 | sort | uniq -c | head -3; done
-git -C /repo checkout -- .
-git -C /repo status --short | head -3
+for P in "$@"; do echo "== check $P on the patched worktree $WT"; VERIF_REPO=$WT VERIF_OUT=/tmp/seedeval_out_$$ ./check $P quick > /tmp/seedeval_check_$$.out 2>&1; echo "exit=$?"; grep -E "^(VIOLATION|OK)" /tmp/seedeval_check_$$.out | cut -c1-300 | head -6; grep -E "^INCONCLUSIVE" /tmp/seedeval_check_$$.out | cut -c1-200 | sort | uniq -c | head -3; done
+git -C $WT checkout -q -- .
+rm -rf /tmp/seedeval_out_$$ /tmp/seedeval_check_$$.out
